@@ -21,6 +21,8 @@ def scenarios(tier, rng):
         "split": [{"rec": [["part1", 1]], "nowait": True}, {"pause": 30}, {"rec": [["part2", 1], ["bmp", 2]]}],
         "mixed": [{"rec": [["bmp", 1]]}, {"rec": [["bmp", 2], ["bmp", 3]]}, {"rec": [["bmp", 4]]}],
         "none": [],
+        # silence between records: the thread has to stay blocked in its wait, however long, and pick up what comes next
+        "paused": [{"rec": [["bmp", 1]]}, {"pause": 700}, {"rec": [["bmp", 2]]}, {"pause": 1300}, {"rec": [["bmp", 3]]}],
     }
     out = []
     k = 0
@@ -96,7 +98,7 @@ def run(tier, seed):
         cov = {"states": mc.distinct, "transitions": mc.generated, "traces_validated_against_impl": accepted,
                "samples": [{"scenario": scs[7], "events": [json.loads(x) for x in lines[:6]]}],
                "evaluations": len(scs), "distinct_nontrivial": len({json.dumps(s["steps"], sort_keys=True) for s in scs}),
-               "rule": "packings {one PDU per TLS record, two / three per record, one PDU split over two records, mixed, none} x end modes {ultimatum, close_notify, abrupt close, undecodable PDU of the library's error kind, of an io kind} x {with, without concurrent input writes}"
+               "rule": "packings {one PDU per TLS record, two / three per record, one PDU split over two records, mixed, none, one per record with 0.7 s / 1.3 s of server silence in between} x end modes {ultimatum, close_notify, abrupt close, undecodable PDU of the library's error kind, of an io kind} x {with, without concurrent input writes}"
                        + ("" if tier == "quick" else " x 10 repetitions with seeded random pauses") + "; distinct = distinct scenarios",
                "as_implemented_model_experiments": exps, "events_validated": len(lines), "checker_cmd": mc.cmd}
         return v.finish("model_checking", cov, [
